@@ -399,6 +399,17 @@ class Inliner:
         if not (fn.get("def") or "").endswith("FnOnce::call_once") or len(t["args"]) != 2 or not fn.get("targs"):
             return None
         cty = self.d["types"][fn["targs"][0]]
+        if isinstance(cty, dict) and cty.get("k") == "fndef" and cty.get("def") in self.fns:
+            # a function item handed to a generic helper (`self.with_metrics(MetricsCollector::message_count)`): the
+            # call through FnOnce is a direct call of that function on the fields of the argument tuple
+            fd = self.fns[cty["def"]]
+            tup = t["args"][1].get("move") or t["args"][1].get("copy")
+            if tup is None or tup["p"]:
+                return None
+            t["fn"] = {"def": cty["def"], "targs": list(cty.get("args") or []), "krate": self.d.get("crate"), "path": cty["def"], "name": fd.get("name")}
+            t["args"] = [{"move": {"l": tup["l"], "p": [i]}} for i in range(len(fd.get("inputs") or []))]
+            t["via_fn_item"] = True
+            return []
         if not isinstance(cty, dict) or cty.get("k") != "closure" or cty.get("def") not in self.raw:
             return None
         callee = self.raw[cty["def"]]
